@@ -689,9 +689,10 @@ func runTrace(job Job) (out TraceOut) {
 	}
 	for _, pr := range t.procs {
 		po := ProcOut{Exit: pr.exit, Killed: pr.killed, EffCount: pr.effSeen, Tids: pr.tids}
+		// the process is gone, so the write end of the pipe is closed: the reader terminates
 		select {
 		case po.Stdout = <-pr.stdout:
-		case <-time.After(2 * time.Second):
+		case <-time.After(120 * time.Second):
 		}
 		out.Procs = append(out.Procs, po)
 	}
